@@ -1152,8 +1152,13 @@ class OrMacro(Macro):
         return Thm(Or(*args), prevs[0].hyps)
 
     def get_proof_term(self, args, prevs):
-        # This requires no proof, as the form of the statement is unchanged
-        return prevs[0]
+        # The form of the statement is unchanged.  The premise cannot itself be
+        # the expansion (a cited line is not a derivation and cannot be exported),
+        # so derive it once more: A --> A and modus ponens.
+        pt = prevs[0]
+        if tuple(strip_disj_n(pt.prop, len(args))) != tuple(args):
+            raise VeriTException("or", "incorrect conclusion")
+        return logic.apply_theorem('trivial', inst=Inst(A=pt.prop)).implies_elim(pt)
 
 
 @register_macro("verit_false")
